@@ -1,10 +1,11 @@
-\* 3 exchange ids, 2 handlers, 5 packets of any (id, initiator, reliable), every handler policy; safety and liveness
+\* 2 sessions x 2 exchange ids, 2 handlers, 4 packets, every handler policy; safety and liveness
 SPECIFICATION Spec
 CONSTANTS
-  ExIds = {1, 2, 3}
+  Sess = {1, 2}
+  ExIds = {1, 2}
   Handlers = {1, 2}
-  MaxPkts = 5
-  Policies = {"reply", "drop", "hold"}
+  MaxPkts = 4
+  Policies = {"reply", "drop", "hold", "relDrop"}
 VIEW view
 INVARIANTS RightExchangeOnly OpensOnlyIfAllowed
 PROPERTIES SlotEventuallyFree EventuallyClean
